@@ -17,6 +17,37 @@ CHECKS = {
              'CPython 3.12 semantics (int digit limit).', ref='3/C01'),
 }
 
+CHECKS.update({
+    'C02': dict(
+        technique='runtime contract monitor: every accepted validate() result is re-fed to validate() (fixed point, no surrounding whitespace) over generated presentations',
+        text='Presentation workload (every pool character at sampled/all positions, prefixes, double inserts, table-driven constant variants, hostile strings, options); every accepted result is re-validated and compared. Held = no unlisted non-fixed-point on the accepted calls counted.',
+        note='Accepted presentations are sampled; corpus + synthesised numbers judged valid by the library.', ref='3/C02'),
+    'C03': dict(
+        technique='relational runtime monitor: inputs grouped by the value the real compact() returns must share one validate() outcome',
+        text='Seeds (valid, near-miss, garbage) are decorated; pairs the real compact() maps together are compared on validate() outcome. Held = every observed compact-equivalence group had one outcome.',
+        note='Only pairs that the workload generates are compared; exclusions are the ones the statement names.', ref='3/C03'),
+    'C04': dict(
+        technique='relational runtime monitor on format(): validate(format(x)) vs validate(x) and format(x) vs format(validate(x))',
+        text='All modules with format() x accepted presentations x format options; three-clause oracle with only the four documented normalisations. Held = no unlisted clause failure on the cases counted.',
+        note='Presentations sampled; separators restricted to those compact() is observed to strip.', ref='3/C04'),
+    'C05': dict(
+        technique='inner-call probe (sys.monitoring) on generators + layout inference + perturbation of check positions + converse completion',
+        text='Generators are observed inside validate(); the layout rule the documented numbers agree on is required of all corpus+synthesised valid numbers; every alternative check character is tried; mutated payloads are completed with generated check characters. Held = no unlisted disagreement on mapped generators (unmapped ones are listed in the evidence).',
+        note='Modules whose generator layout cannot be inferred from >= 3 documented numbers of one length are reported unmapped, not held.', ref='3/C05'),
+    'C06': dict(
+        technique='state-observation monitor (transition tables of each fold via checksum()) + neighbourhood oracle at the API for every length 1..64 and long strings',
+        text='For 33 (algorithm, alphabet) configurations: observed transition tables are checked for functional dependence under many prefix lengths, injectivity and transposition anti-symmetry; payloads of every length are completed, all other check characters, all single substitutions and adjacent transpositions tried. Held = guarantees observed on all of these.',
+        note='"Any length" rests on observed functional dependence of the abstract state, which is itself monitored; mod 97-10 is bounded by CPython int() at 4300 digits.', ref='3/C06'),
+    'C14': dict(
+        technique='exhaustive sweep of clean() over all code points against unicodedata + string postcondition monitor + look-alike relational monitor per module (probe on util.clean)',
+        text='All 1,114,112 code points (exhaustive); generated strings x deletechars for order/count/deletion/idempotence; every look-alike of the table substituted/inserted in valid numbers of every module observed to call clean(). Held = all agree.',
+        note='Unicode database of the interpreter is the reference; module-level part is sampled over numbers and positions.', ref='3/C14'),
+    'C15': dict(
+        technique='runtime contract monitor: validate() results must be ASCII under foreign-digit / foreign-letter substitution at every position',
+        text='First two documented numbers of every identifier module are swept exhaustively (every digit position x every same-valued non-table foreign digit, every letter position x letter classes), further numbers seed-sampled. Held = no unlisted non-ASCII result.',
+        note='20+ modules of the unchanged tree pass non-ASCII characters through; these are recorded as known findings by (module, character kind).', ref='3/C15'),
+})
+
 NOT_YET = 'monitor designed in DESIGN.md but not built yet in this round'
 
 
